@@ -8,13 +8,15 @@ import scipy.sparse.csgraph as csg
 from .. import coqrun as cq
 from .. import gen
 
-TECHNIQUE = 'Coq proofs (unbounded serial and parallel MIS; all graphs <= 4 nodes for the rest) + exhaustive small-graph correspondence'
+TECHNIQUE = 'Coq proofs (unbounded: serial and parallel MIS, MIS colouring, components, BFS; all graphs <= 4 nodes for the rest) + exhaustive small-graph correspondence'
 LEVEL_TEXT = ('Kernel-checked theorems (Props/C18.v): for EVERY symmetric graph the serial maximal-independent-set '
               'model returns an independent and maximal set (invariant proof, any number of vertices), and the parallel '
               'maximal-independent-set model (any weight type) returns only maximal independent sets and, with integer weights '
               'and index tie-break, always returns within its fuel n+2 (every pass decides the largest undecided vertex); the '
               'MIS-based colouring returns within its fuel and is a proper colouring with colours 0..K-1 on every symmetric graph; '
-              'connected_components returns within its fuel and labels two vertices equally exactly when they are connected; for all '
+              'connected_components returns within its fuel and labels two vertices equally exactly when they are connected; '
+              'breadth_first_search on EVERY graph (symmetric or not) returns within its fuel, level = hop distance from the seed, -1 exactly '
+              'for unreachable vertices, order lists the reached vertices once; for all '
               'symmetric graphs on <= 4 vertices (bound stated in the theorems, decided by vm_compute over the '
               'complete enumeration) the models of parallel MIS, distance-2 MIS, the three colourings, connected '
               'components, breadth-first search and Bellman-Ford are valid (independent/maximal, proper and gap-free, '
@@ -22,16 +24,17 @@ LEVEL_TEXT = ('Kernel-checked theorems (Props/C18.v): for EVERY symmetric graph 
               'out of fuel.  The models are pinned to the working-tree kernels by exact agreement on every symmetric '
               'graph on <= 5 vertices (6 in the thorough tier) with and without self loops, all seeds/centres, tied '
               'integer weights; csgraph-based oracles decide the property on the public functions.')
-LEVEL_NOTE = ('Unbounded theorems exist for serial and parallel MIS, the MIS colouring and connected components; the others are bounded (<= 4 vertices) + correspondence. '
+LEVEL_NOTE = ('Unbounded theorems exist for serial and parallel MIS, the MIS colouring, connected components and breadth-first search; the others are bounded (<= 4 vertices) + correspondence. '
               'Balanced Bellman-Ford / Lloyd clustering: oracle only.  symmetric_rcm on disconnected graphs read an '
               'uninitialised array (F5), repaired by a fix: commit.')
 RULE = ('complete enumeration of symmetric graphs on 1..5 vertices (1..6 thorough), each without and with stored '
         'diagonal; per graph: serial MIS, parallel MIS with tied integer weights, MIS-2, colourings MIS/JP/LDF, BFS from '
-        'every seed, components, Bellman-Ford with integer weights and 1-2 centres -> model == kernel exactly; public '
+        'every seed, components, Bellman-Ford with integer weights and 1-2 centres -> model == kernel exactly; BFS also on '
+        'every directed graph on <= 3 vertices and every (8th in quick) directed graph on 4; public '
         'functions with NumPy-random weights -> validity oracles (scipy.sparse.csgraph).  Non-trivial: the graph has '
         'an edge; distinct = distinct (algorithm, graph, arguments).')
 TRUSTED = ['scipy.sparse.csgraph (oracle side only)', 'NumPy global RNG for the public randomised functions']
-PARTIAL = ['MIS-k, JP / LDF colourings, BFS, Bellman-Ford: theorems bounded to <= 4 vertices',
+PARTIAL = ['MIS-k, JP / LDF colourings, Bellman-Ford: theorems bounded to <= 4 vertices',
            'balanced Bellman-Ford, Lloyd clustering, center_nodes, floyd_warshall: oracle only']
 REFUTED = []
 HEADER = ('From Coq Require Import ZArith List.\nImport ListNotations.\n'
@@ -212,6 +215,37 @@ def run(ctx):
             amg_core.maximal_independent_set_k_parallel(n, Ap, Aj, k, x, y, -1)
             add(8, [k, -1], [y.astype(int).tolist()], x.tolist(), dict(base, alg='mis_k', k=k, y=y.tolist()))
             check_mis(ctx, 'mis_k%d' % k, n, adj, x.tolist(), k, dict(base, alg='mis_k', k=k, y=y.tolist()))
+    # BFS on DIRECTED graphs (the unbounded theorem covers nonsymmetric patterns): every digraph on <= 3 vertices,
+    # every 8th (quick) / every (thorough) digraph on 4 vertices, all seeds; hop counts along edge direction
+    for n in (2, 3, 4):
+        pairs = [(i, j) for i in range(n) for j in range(n) if i != j]
+        step = 1 if (n < 4 or ctx.thorough) else 8
+        for mask in range(0, 1 << len(pairs), step):
+            arcs = [pairs[b] for b in range(len(pairs)) if mask >> b & 1]
+            D = np.zeros((n, n))
+            for (i, j) in arcs:
+                D[i, j] = 1
+            A = sp.csr_array(D)
+            Ap, Aj = A.indptr.astype(I32), A.indices.astype(I32)
+            base = dict(n=n, arcs=arcs, directed=True)
+            ctx.mark(base)
+            for seed in range(n):
+                order = np.full(n, -7, dtype=I32)
+                level = np.full(n, -1, dtype=I32)
+                amg_core.breadth_first_search(Ap, Aj, seed, order, level)
+                reached = int(np.sum(level >= 0))
+                out = [reached] + order[:reached].tolist() + level.tolist()
+                cases.append('(5%%nat, %s, %s, %s, %s, %s, %s)' % (
+                    cq.z(n), cq.zl(Ap), cq.zl(Aj), cq.zl([seed]), cq.lst([cq.zl([-7] * n)]), cq.zl(out)))
+                meta.append((dict(base, alg='bfs', seed=seed), [int(v) for v in out]))
+                ctx.case((5, 'directed', n, mask, seed), len(arcs) > 0)
+                ctx.count('alg5-directed')
+                hop = csg.shortest_path(A, unweighted=True, directed=True, indices=seed)
+                want = [int(h) if np.isfinite(h) else -1 for h in hop]
+                if want != level.tolist():
+                    ctx.fail('breadth_first_search/levels-directed', 'levels %s but hop counts %s' % (level.tolist(), want), dict(base, seed=seed))
+                if sorted(order[:reached].tolist()) != [i for i in range(n) if want[i] >= 0]:
+                    ctx.fail('breadth_first_search/order-directed', 'order %s' % order.tolist(), dict(base, seed=seed))
     ctx.exhaustive = True
     ctx.corr_relations = ['amg_core.{maximal_independent_set_serial,_parallel,_k_parallel,vertex_coloring_mis,'
                           '_jones_plassmann,_LDF,breadth_first_search,connected_components,bellman_ford} == GraphAlg.* (exact)']
